@@ -212,7 +212,14 @@ func FamilyDyn(maxN int, sampleAbove int, seed int64, remote bool) []*Skeleton {
 		}
 		defs["t"] = marker(rootKind, 100)
 		root := merge(J{"$id": "http://x/root", "$defs": defs}, hopTo(target(perm[0])))
-		if twice && len(perm) > 1 {
+		if twice && len(perm) > 1 && !remote && entry == "root" && hop == "ref" {
+			// the first resource of the chain is itself the second allOf branch (not behind a $ref),
+			// so that both visits of the $dynamicRef happen at the same stack depth
+			key := fmt.Sprintf("r%d", perm[0])
+			inline := defs[key]
+			delete(defs, key)
+			root = J{"$id": "http://x/root", "$defs": defs, "allOf": A{J{"$ref": target(perm[len(perm)-1])}, inline}}
+		} else if twice && len(perm) > 1 {
 			// the resource that holds the $dynamicRef is reached twice within one Validate call:
 			// first directly from the root (a shorter dynamic scope, and - with a loader - before the
 			// other resources are loaded), then through the whole chain
